@@ -246,13 +246,15 @@ def gen_case(rng, model, allow_flatten, stats):
 
 # ---------------------------------------------------------------------------------------------------------------- running
 
-def harness_answers(exe, cases):
-    """cases: list of lists of command lines. Returns list (per case) of answer lines, None-padded where the harness died."""
+def harness_answers(exe, cases, timeout=150):
+    """cases: list of lists of command lines. Returns list (per case) of answer lines, None-padded where the harness died
+    (crash, or hang: libdispatch sleeps and retries forever when an allocation of a garbage size fails)."""
     res = [None] * len(cases)
     start = 0
+    deaths = 0
     while start < len(cases):
         lines = [l for c in cases[start:] for l in c]
-        r = common.run([exe], input="\n".join(lines) + "\n", timeout=1200)
+        r = common.run([exe], input="\n".join(lines) + "\n", timeout=timeout)
         out = r.stdout.split("\n")
         if out and out[-1] == "":
             out.pop()
@@ -269,6 +271,9 @@ def harness_answers(exe, cases):
                 break
             res[ci] = chunk
         if died is None:
+            break
+        deaths += 1
+        if deaths >= 3:     # do not spend the budget on a library that keeps dying; the remaining cases are not run
             break
         start = died + 1
     return res
@@ -344,17 +349,23 @@ def judge_case(lines, mans, hans):
             ptr_of.pop(x, None)
 
     for i, (cmd, ma, ha) in enumerate(zip(lines, mans, hans)):
+        if fails or mism:
+            break       # after the first difference the rest of the script may be illegal for the library (aliasing differs)
         if ha is None or (isinstance(ha, str) and ha.startswith("DIED")):
             extra = hans[-1] if isinstance(hans[-1], str) and hans[-1].startswith("DIED") else ""
-            fail(i, "library crashed / harness died at this command (%s)" % extra[:200])
-            break
-        if fails:
+            fail(i, "library crashed or hung at this command (%s)" % extra[:200])
             break
         compared += 1
         w = cmd.split()
         if w[0] == "reset":
             empty_ptr = ha.split()[1] if len(ha.split()) > 1 else None
             hname[0] = empty_ptr
+            continue
+        if w[0] == "ovf":
+            if ha.startswith("ovf object"):
+                fail(i, "concatenation of 2^18 pieces of 2^46 bytes (total 2^64) returned an object of size %d: the size wrapped around size_t" % int(fields(ha)["size"], 16))
+            elif ha.startswith("ovf null") and not ha.startswith("ovf null at=18 size=8000000000000000"):
+                mis(i, "overflow probe: unexpected answer " + ha)
             continue
         if w[0] == "counts":
             got = dict((int(a, 16), int(b)) for a, b in (t.split(":") for t in ha.split()[1:]))
@@ -513,6 +524,8 @@ def judge_case(lines, mans, hans):
 # ---------------------------------------------------------------------------------------------------------------- entry points
 
 CORPUS = [
+    # witness of the defect repaired by 643b9b0 (total size 2^64 wrapped to 0); Proofs: concat_total
+    ["reset", "ovf", "counts"],
     # the "rest of the data" idiom: offset + length wraps around size_t
     ["reset", "L 1 0 000102030405060708090a0b0c0d0e0f", "S 2 1 1 ffffffffffffffff", "O 2 0 0 1 e f 10", "L 3 4 a0a1a2a3", "C 4 1 3",
      "S 5 4 3 fffffffffffffffe", "O 5 1 0 c d 10 11", "S 6 4 10 ffffffffffffffff", "S 7 4 f fffffffffffffff1", "O 7 0 0 1 4 5",
